@@ -228,7 +228,13 @@ func checkC17(ci any, info *CaseInfo) string {
 		}
 	case "unfolder":
 		info.NonTrivial = len(c.Gos) >= 2
-		u, err := gotype.NewUnfolder(nil)
+		var histTypes []reflect.Type
+		for i := range c.Gos {
+			if t, _, err := c.Gos[i].build(); err == nil {
+				histTypes = append(histTypes, reflect.PointerTo(t))
+			}
+		}
+		u, err := newUnfolder(nil, histTypes...)
 		if err != nil {
 			return "harness: " + err.Error()
 		}
@@ -242,7 +248,7 @@ func checkC17(ci any, info *CaseInfo) string {
 			o := guard(func() error { return u.SetTarget(target.Interface()) })
 			if o.Err != nil && !o.Panicked() {
 				// a refused target type (duplicate member names, ...): a fresh unfolder must refuse too
-				fo := guard(func() error { _, err := gotype.NewUnfolder(reflect.New(typ).Interface()); return err })
+				fo := guard(func() error { _, err := newUnfolder(reflect.New(typ).Interface()); return err })
 				if fo.Err != nil && !fo.Panicked() {
 					info.Class("history_ended_by_refusal")
 					return ""
